@@ -106,13 +106,17 @@ def gen_query(rnd):
 
 
 def gen_malformed_target(rnd, host):
-    base = gen_path(rnd, host, "valid") + gen_query(rnd)
+    path = gen_path(rnd, host, "valid")
+    query = gen_query(rnd)
     k = rnd.random()
-    if k < 0.45:
-        i = rnd.randrange(0, len(base.split(b"?")[0]) + 1)
-        return base[:i] + rnd.choice([b"%", b"%z", b"%4", b"%zz", b"%G0", b"%0g", b"%%"]) + base[i:] if i < len(base.split(b"?")[0]) \
-            else base.split(b"?")[0] + rnd.choice([b"%", b"%4"]) + base[len(base.split(b"?")[0]):]
-    if k < 0.75:
+    if k < 0.45:                          # broken percent escape somewhere in the path
+        bad = rnd.choice([b"%", b"%z", b"%4", b"%zz", b"%G0", b"%0g", b"%%"])
+        i = rnd.randrange(1, len(path) + 1)
+        if bad in (b"%", b"%4") and i < len(path):
+            i = len(path)                 # "%" / "%4" are only malformed at the end of the path
+        return path[:i] + bad + path[i:] + query
+    if k < 0.75:                          # control bytes (never CR, LF or space: those break the request line itself)
+        base = path + query
         i = rnd.randrange(0, len(base) + 1)
         return base[:i] + rnd.choice([b"\x01", b"\x7f", b"\x09", b"\x00", b"\x1f", b"\x0b"]) + base[i:]
     if k < 0.92:
@@ -175,7 +179,7 @@ def gen_headers(rnd, cls, method):
     if r < 0.22:                         # hop-by-hop material
         k = rnd.random()
         if k < 0.35:
-            add(rnd.choice(["Connection", "connection"]), rnd.choice(["keep-alive", "X-Hop, keep-alive", " x-hop ,, X-Other", "close", "x hop"]))
+            add(rnd.choice(["Connection", "connection"]), rnd.choice(["keep-alive", "X-Hop, keep-alive", "x-hop ,, X-Other", "close", "x hop"]))
             add("X-Hop", "1")
             if rnd.random() < 0.5:
                 add("X-Other", "2")
@@ -224,7 +228,6 @@ def gen_response(rnd, cls, client_headers, method):
 
     def add(n, v):
         hs.append((n if isinstance(n, bytes) else n.encode(), v if isinstance(v, bytes) else v.encode()))
-    sent_ae = any(n.lower() == b"accept-encoding" and v for n, v in client_headers[:1] + client_headers)
     first_ae = next((v for n, v in client_headers if n.lower() == b"accept-encoding"), None)
     has_range = any(n.lower() == b"range" for n, v in client_headers)
     transport_asks_gzip = (not first_ae) and not has_range and method != "HEAD"
@@ -584,7 +587,9 @@ def run(tier, seed):
             if o.get("hit"):
                 svc_hits[o["svc"]] = svc_hits.get(o["svc"], 0) + 1
         res.coverage.update({
-            "evaluations": len(reqs), "distinct_nontrivial": len({c["raw"][c["raw"].find("0d0a"):] + c["_target"] for c in reqs}),
+            "evaluations": len(reqs),
+            "distinct_nontrivial": len({json.dumps([c["method"], c["_target"], c["_host"], c["tls"], c["_headers"], c["_body"], c["_chunked"],
+                                                    c["resp"]], sort_keys=True) for c in reqs}),
             "rule": "hand-derived boundary targets first, then random structured exchanges drawn from VERIF_SEED: "
                     "class mix valid/malformed/known-finding shapes as in input_distribution; a case is distinct by its raw request bytes",
             "input_distribution": {"class": dist, "shape": {k: int(v) for k, v in shape.items()}},
@@ -610,6 +615,14 @@ def run(tier, seed):
             "c13_strip assumes the prefix holds no '%' (a prefix whose decoded form contains '%' cannot be spelled literally by a client)",
             "TLS is exercised only through the static-certificate service; X-Forwarded-Proto=https is compared on those exchanges",
         ]
+        dump = os.environ.get("VERIF_C13_DUMP")
+        if dump:
+            with open(dump, "w") as fh:
+                for (j, a, mo, f, cl) in failing:
+                    d = readable(reqs[j], robs[j])
+                    d.update({"agree": a, "monitor": mo, "findings": [FINDING_BITS[b] for b in FINDING_BITS if f & b],
+                              "unexplained": bool(f & 128), "failed_clauses": [CLAUSE_BITS[b] for b in CLAUSE_BITS if cl & b]})
+                    fh.write(json.dumps(d) + "\n")
         if real_mon:
             j, f, cl = min(real_mon, key=lambda x: len(reqs[x[0]]["raw"]))
             payload = readable(reqs[j], robs[j])
